@@ -12,7 +12,7 @@ use sv_parser_parser::{lib_parser, lib_parser_incomplete, sv_parser, sv_parser_i
 
 pub fn cases(tier: Tier) -> u64 {
     match tier {
-        Tier::Quick => 1600,
+        Tier::Quick => 2000,
         Tier::Thorough => 40000,
         Tier::Tiny => 8,
     }
@@ -330,7 +330,8 @@ pub fn run_case(env: &Env, ctx: &mut Ctx, idx: u64) {
             ctx.count("mismatches_unclassified_timeout", 1);
             continue;
         }
-        ctx.violation("capacity-dependence", &sig, &m, w);
+        let (sig, note) = crate::memo_cfg::attribute(env, &sig);
+        ctx.violation("capacity-dependence", &sig, &format!("{}{}", m, note), w);
     }
     if any_evictions {
         ctx.nontrivial(hash_strs(&[&text, if incomplete { "i" } else { "s" }]));
